@@ -18,7 +18,7 @@ import (
 type Facts struct {
 	Loop map[string]map[string]bool // loop name -> {resetCatch, resetExit}
 	// fields assigned before the child call in each loop (for the evidence / replay files)
-	LoopAssigns map[string][]string
+	LoopAssigns              map[string][]string
 	PrimParsePostClearsCatch bool
 	PrimValPostClearsCatch   bool
 	// pooled constructors: constructor -> fields it assigns
@@ -31,6 +31,7 @@ type Facts struct {
 	StructValidateTestArg string
 	StructValidatePostArg string
 	StructProcessPostWrap string
+	CollectMapSkipsFirst  bool
 	HTTPMethods           [][2]string // method -> parser
 	HTTPTypes             [][2]string // media type -> parser
 	HTTPDefault           string
@@ -299,7 +300,8 @@ func structFields(f *ast.File, name string) []string {
 			}
 			for _, fl := range st.Fields.List {
 				if len(fl.Names) == 0 {
-					out = append(out, "embedded:"+exprString(fl.Type))
+					// an embedded field is assigned under its type's name
+					out = append(out, strings.TrimPrefix(exprString(fl.Type), "*"))
 				}
 				for _, n := range fl.Names {
 					out = append(out, n.Name)
@@ -493,6 +495,35 @@ func extractFacts(repo string) (*Facts, error) {
 		sel, ok := call.Fun.(*ast.SelectorExpr)
 		return ok && sel.Sel.Name == "AddIssue"
 	}), ",")
+	// F-collect: CollectMap skips the $first entry (that issue is also filed under its own path)
+	uf, err := parseFile(fset, filepath.Join(repo, "utils.go"))
+	if err != nil {
+		return nil, err
+	}
+	if cm := findFunc(uf, "issueHelpers", "CollectMap"); cm != nil {
+		ast.Inspect(cm.Body, func(n ast.Node) bool {
+			is, ok := n.(*ast.IfStmt)
+			if !ok {
+				return true
+			}
+			cond := exprString(is.Cond)
+			if be, ok := is.Cond.(*ast.BinaryExpr); ok {
+				cond = exprString(be.X) + be.Op.String() + exprString(be.Y)
+			}
+			hasContinue := false
+			ast.Inspect(is.Body, func(m ast.Node) bool {
+				if bs, ok := m.(*ast.BranchStmt); ok && bs.Tok == token.CONTINUE {
+					hasContinue = true
+				}
+				return true
+			})
+			if hasContinue && (strings.Contains(cond, "ISSUE_KEY_FIRST") || strings.Contains(cond, "$first")) && strings.Contains(cond, "==") {
+				fc.CollectMapSkipsFirst = true
+			}
+			return true
+		})
+	}
+
 	// F-http: the two switch statements of zhttp.Request
 	zf, err := parseFile(fset, filepath.Join(repo, "zhttp/zhttp.go"))
 	if err != nil {
@@ -670,6 +701,7 @@ func (f *Facts) lean() string {
 		}
 		s.WriteString("]\n")
 	}
+	fmt.Fprintf(&s, "/-- Issues.CollectMap skips the `$first` entry, so every issue object is returned to the pool once -/\ndef collectMapSkipsFirst : Bool := %s\n\n", b(f.CollectMapSkipsFirst))
 	s.WriteString("/-- zhttp.Request: `switch r.Method` and `switch typ` (typ = text of Content-Type before the separator) -/\n")
 	tbl("httpMethods", f.HTTPMethods)
 	tbl("httpTypes", f.HTTPTypes)
